@@ -15,3 +15,4 @@ import AITB.Props.C09h
 import AITB.Props.C09i
 import AITB.Props.C09j
 import AITB.Props.C09k
+import AITB.Props.C09l
